@@ -511,6 +511,16 @@ func (e *eng) attemptedUpTo(rev uint64, inFlight uint64) bool {
 // ---------------------------------------------------------------- user writes
 func (e *eng) doWrite(kind string, k uint64) {
 	wtxn := e.db.WriteTxn(e.table)
+	if e.doWriteIn(wtxn, kind, k) {
+		wtxn.Commit()
+		e.history = append(e.history, cloneMap(e.want))
+	} else {
+		wtxn.Abort()
+	}
+}
+
+// doWriteIn performs one user write inside the given transaction; reports whether it wrote anything
+func (e *eng) doWriteIn(wtxn statedb.WriteTxn, kind string, k uint64) bool {
 	old, _, found := e.table.Get(wtxn, keyIndex.Query(k))
 	commit := false
 	switch kind {
@@ -608,12 +618,7 @@ func (e *eng) doWrite(kind string, k uint64) {
 		wtxn.Abort()
 		panic("bad write kind " + kind)
 	}
-	if commit {
-		wtxn.Commit()
-		e.history = append(e.history, cloneMap(e.want))
-	} else {
-		wtxn.Abort()
-	}
+	return commit
 }
 
 // newObj: a fresh object for key k with the next payload version, pending
@@ -836,6 +841,26 @@ func (e *eng) Op(f []string, line string, out *hx.Out) {
 	case "w":
 		e.start()
 		e.doWrite(f[1], uint64(atoi(f[2])))
+		e.quiesce()
+		out.P("M:%s rev=%d calls=%s%s", tags, e.tableRev(), e.callsStr(), e.takeBad())
+	case "wmany":
+		// wmany <wkind>:<k> ...   several user writes in ONE write transaction (one commit, one wake-up of the
+		// reconciler: the changes reach it in one round, round size permitting), then quiesce
+		e.start()
+		wtxn := e.db.WriteTxn(e.table)
+		wrote := false
+		for _, a := range f[1:] {
+			kk := strings.SplitN(a, ":", 2)
+			if e.doWriteIn(wtxn, kk[0], uint64(atoi(kk[1]))) {
+				wrote = true
+			}
+		}
+		if wrote {
+			wtxn.Commit()
+			e.history = append(e.history, cloneMap(e.want))
+		} else {
+			wtxn.Abort()
+		}
 		e.quiesce()
 		out.P("M:%s rev=%d calls=%s%s", tags, e.tableRev(), e.callsStr(), e.takeBad())
 	case "sleep":
